@@ -60,7 +60,9 @@ MV(w, cs, t)  == IF t[2] THEN Q(PeakOf(w, cs), Overall(cs)) ELSE R(PeakOf(w, cs)
 P_MaxSelections(cs, t) == { { w \in Win : RLt(MV(w, cs, t), t[1]) } }
 I_MaxSelection(cs, t) == { w \in Win : RLt(MV(w, cs, t), t[1]) }
 
+\* the three components of a window have the same duration; different windows may differ (mixed-duration lists)
 Init == /\ pat \in [Win -> [1..3 -> 1..Len(Patterns)]]
+        /\ \A w \in Win : \A i, j \in 1..3 : Len(Patterns[pat[w][i]]) = Len(Patterns[pat[w][j]])
         /\ comps \in CompSets
         /\ \E k \in 1..Len(Limits) : lim = Limits[k] /\ thr = MaxThr[k]
         /\ done = FALSE
